@@ -24,7 +24,7 @@ theorem invX_step (c : Cfg) {s s' : State} {l : Label} (hA : InvA c s) (h : InvX
   cases l <;> simp only [step] at st <;> (repeat' split at st) <;>
     (first | (simp at st; done) | skip) <;>
     simp only [Option.some.injEq] at st <;> subst st <;>
-    simp only [upd, lockS, unlockS, newHelper] <;> grind [HPc.exiting]
+    simp only [upd, lockS, unlockS, newHelper, nestOn, csOn, nestOff] <;> grind [HPc.exiting]
 
 theorem invX_reach (c : Cfg) {s : State} (h : Reach c s) : InvX s := by
   induction h with
@@ -41,7 +41,7 @@ theorem invN_step (c : Cfg) {s s' : State} {l : Label} (h : InvN s) (st : step c
   cases l <;> simp only [step] at st <;> (repeat' split at st) <;>
     (first | (simp at st; done) | skip) <;>
     simp only [Option.some.injEq] at st <;> subst st <;>
-    simp only [upd, lockS, unlockS, newHelper] <;> grind
+    simp only [upd, lockS, unlockS, newHelper, nestOn, csOn, nestOff] <;> grind
 
 theorem invN_reach (c : Cfg) {s : State} (h : Reach c s) : InvN s := by
   induction h with
@@ -60,7 +60,7 @@ theorem hpc_frame (c : Cfg) {s s' : State} {l : Label} (hA : InvA c s) (x : Nat)
     simp only [step] at st <;> (repeat' split at st) <;>
     (first | (simp at st; done) | skip) <;>
     simp only [Option.some.injEq] at st <;> subst st <;>
-    simp only [upd, lockS, unlockS, newHelper] <;> grind
+    simp only [upd, lockS, unlockS, newHelper, nestOn, csOn, nestOff] <;> grind
 
 /-- only helper `x` itself touches its private batch, the callback it runs, and the start time of its grace period -/
 theorem priv_frame (c : Cfg) {s s' : State} {l : Label} (x : Nat) (hl : ¬ hOwn x l)
@@ -70,7 +70,7 @@ theorem priv_frame (c : Cfg) {s s' : State} {l : Label} (x : Nat) (hl : ¬ hOwn 
     simp only [step] at st <;> (repeat' split at st) <;>
     (first | (simp at st; done) | skip) <;>
     simp only [Option.some.injEq] at st <;> subst st <;>
-    simp only [upd, lockS, unlockS, newHelper] <;> grind
+    simp only [upd, lockS, unlockS, newHelper, nestOn, csOn, nestOff] <;> grind
 
 /-- the helper is between its splice and the end of the invocation of the batch -/
 def HPc.busy : HPc → Bool
@@ -142,7 +142,7 @@ theorem old_step (c : Cfg) {s s' : State} {l : Label} (G t : Nat) (hG : G < s.cl
   cases l <;> simp only [step] at st <;> (repeat' split at st) <;>
     (first | (simp at st; done) | skip) <;>
     simp only [Option.some.injEq] at st <;> subst st <;>
-    simp only [upd, lockS, unlockS, newHelper] <;> grind
+    simp only [upd, lockS, unlockS, newHelper, nestOn, csOn, nestOff] <;> grind
 
 theorem gp_may_end_eventually (c : Cfg) {ρ : Nat → State} {ℓ : Nat → Option Label} (hrun : IsRun (step c) ρ ℓ)
     (hR : ∀ j, Reach c (ρ j))
@@ -160,7 +160,7 @@ theorem gp_may_end_eventually (c : Cfg) {ρ : Nat → State} {ℓ : Nat → Opti
         cases l <;> simp only [step] at st <;> (repeat' split at st) <;>
           (first | (simp at st; done) | skip) <;>
           simp only [Option.some.injEq] at st <;> subst st <;>
-          simp only [lockS, unlockS, newHelper] <;> omega
+          simp only [lockS, unlockS, newHelper, nestOn, csOn, nestOff] <;> omega
       exact ⟨by omega, trivial⟩
     have := stable_along hrun (fun _ => True) (fun s => ¬ OldSec G s t ∧ G < s.clock) j0 (fun _ _ => trivial)
       (fun s l s' _ h st => old_step c G t h.2 h.1 st) ⟨hn, (hclk j0 hj0).1⟩ j hj
@@ -190,7 +190,7 @@ theorem batch_remove (c : Cfg) {s s' : State} {l : Label} (hA : InvA c s) (x id 
   cases l <;> simp only [step] at st <;> (repeat' split at st) <;>
     (first | (simp at st; done) | skip) <;>
     simp only [Option.some.injEq] at st <;> subst st <;>
-    simp only [upd, lockS, unlockS, newHelper] at * <;> grind [mem_tail_or_head]
+    simp only [upd, lockS, unlockS, newHelper, nestOn, csOn, nestOff] at * <;> grind [mem_tail_or_head]
 
 /-- the running callback changes only when it finishes -/
 theorem cur_remove (c : Cfg) {s s' : State} {l : Label} (hA : InvA c s) (x id : Nat) (hc : s.cur x = some id)
@@ -199,14 +199,14 @@ theorem cur_remove (c : Cfg) {s s' : State} {l : Label} (hA : InvA c s) (x id : 
   cases l <;> simp only [step] at st <;> (repeat' split at st) <;>
     (first | (simp at st; done) | skip) <;>
     simp only [Option.some.injEq] at st <;> subst st <;>
-    simp only [upd, lockS, unlockS, newHelper] at * <;> grind
+    simp only [upd, lockS, unlockS, newHelper, nestOn, csOn, nestOff] at * <;> grind
 
 theorem fin_stable (c : Cfg) {s s' : State} {l : Label} (id : Nat) (hf : s.fin id = true) (st : step c s l = some s') :
     s'.fin id = true := by
   cases l <;> simp only [step] at st <;> (repeat' split at st) <;>
     (first | (simp at st; done) | skip) <;>
     simp only [Option.some.injEq] at st <;> subst st <;>
-    simp only [upd, lockS, unlockS, newHelper] at * <;> grind
+    simp only [upd, lockS, unlockS, newHelper, nestOn, csOn, nestOff] at * <;> grind
 
 /-- a queued callback stays in the queue of a helper that is not being stopped until the helper splices it out -/
 theorem queue_unless (c : Cfg) {s s' : State} {l : Label} (hA : InvA c s) (hD : InvD c s) (hX : InvX s) (x id : Nat)
@@ -220,6 +220,6 @@ theorem queue_unless (c : Cfg) {s s' : State} {l : Label} (hA : InvA c s) (hD : 
   cases l <;> simp only [step] at st <;> (repeat' split at st) <;>
     (first | (simp at st; done) | skip) <;>
     simp only [Option.some.injEq] at st <;> subst st <;>
-    simp only [upd, lockS, unlockS, newHelper] at * <;> grind
+    simp only [upd, lockS, unlockS, newHelper, nestOn, csOn, nestOff] at * <;> grind
 
 end UrcuVerif.CallRcu
